@@ -655,8 +655,11 @@ var boundaryU32 = []uint32{0, 1, 0xFFFF, 0x10000, 300000, 0x7FFFFFFF, 0x80000000
 var rdLens = []int{0, 1, 2, 6, 12, 255, 256, 65535}
 
 func u16(rng *rand.Rand) uint16 {
-	if rng.IntN(2) == 0 {
+	switch rng.IntN(4) {
+	case 0, 1:
 		return boundaryU16[rng.IntN(len(boundaryU16))]
+	case 2:
+		return uint16(rng.IntN(0x42)) // the small codes, where every assigned type and class lives
 	}
 	return uint16(rng.Uint32())
 }
@@ -812,6 +815,17 @@ func boundaryPackets() []*mpkt {
 			m.Ar[0].Type, m.Ar[0].Class = t^0xFF00, t
 			add(m)
 		}
+	}
+	// every small type and class code in turn, in every section, with RDATA (a codec carries them all alike)
+	for t := uint16(0); t <= 0x41; t++ {
+		m := build(0x3000+t, 0x8500, []ent{host}, [3][]ent{{host, wg}, {wg}, {host}}, rd6)
+		m.Q[0].Type, m.Q[0].Class = t, 0x41-t
+		for _, sec := range [][]PRR{m.An, m.Ns, m.Ar} {
+			for k := range sec {
+				sec[k].Type, sec[k].Class = t, uint16(k)+0x41-t
+			}
+		}
+		add(m)
 	}
 	for _, n := range rdLens {
 		rd := func(i int) []byte {
